@@ -8,11 +8,15 @@ and the harness's own tile table.  The cache part runs the real ``get_tile``
 against a temporary cache directory with ``download_tile`` replaced by a
 counter that creates a sparse ``NAME.DEM`` carrying three marker pixels.
 """
+import io
 import math
 import os
 import shutil
 import struct
 import tempfile
+import urllib.error
+import urllib.request
+import zipfile
 from fractions import Fraction
 
 import numpy as np
@@ -353,6 +357,47 @@ def label_rect(ctx, rect):
     ctx.nontrivial = unaligned or nlat > 1 or nlon > 1
 
 
+def check_elevation(ctx, prefix, rect, lats, lons, elev, requested=()):
+    """result of elevation() for the synthetic tiles against the oracle"""
+    def describe():
+        return "rectangle lat %r..%r lon %r..%r" % (
+            rect.lat_min, rect.lat_max, rect.lon_min, rect.lon_max)
+
+    block = check_grids(ctx, prefix, rect, lats, lons)
+    if block is None:
+        return False
+    (r0, nr), (c0, nc) = block
+    elev = np.asarray(elev)
+    if elev.shape != (nr, nc):
+        ctx.fail(prefix + "/shape", "%s -> elevation of shape %r for %d "
+                 "latitudes and %d longitudes" % (describe(), elev.shape,
+                                                  nr, nc))
+        return False
+    rows = (r0 + np.arange(nr, dtype=np.int64)) * NCOLS + 1
+    cols = c0 + np.arange(nc, dtype=np.int64)
+    expected = rows[:, None] + cols[None, :]
+    wrong = elev != expected
+    if wrong.any():
+        i, j = (int(v[0]) for v in np.nonzero(wrong))
+        val = elev[i, j]
+        if val == 0:
+            sig, txt = prefix + "/unfilled-pixel", "never filled (0)"
+        else:
+            sig = prefix + "/wrong-pixel"
+            try:
+                gr, gc = divmod(int(val) - 1, NCOLS)
+                txt = "the value of global pixel (row %d, col %d)" % (gr, gc)
+            except (ValueError, OverflowError):
+                txt = repr(val)
+        ctx.fail(sig, "%s -> elev[%d, %d] (lat %r, lon %r = global row %d, "
+                 "col %d) is %s; %d of %d entries wrong; tiles requested %r"
+                 % (describe(), i, j, float(lats[i]), float(lons[j]),
+                    r0 + i, c0 + j, txt, int(wrong.sum()), wrong.size,
+                    list(requested)))
+        return False
+    return True
+
+
 def check_rect(case, ctx):
     from typhon.topography import SRTM30
     rect = Rect(case)
@@ -388,37 +433,7 @@ def check_rect(case, ctx):
     # --- elevation
     with fake_tiles(SRTM30) as fk:
         lats, lons, elev = SRTM30.elevation(*rect.args())
-    block = check_grids(ctx, "elevation", rect, lats, lons)
-    if block is None:
-        return
-    (r0, nr), (c0, nc) = block
-    elev = np.asarray(elev)
-    if elev.shape != (nr, nc):
-        ctx.fail("elevation/shape", "%s -> elevation of shape %r for %d "
-                 "latitudes and %d longitudes" % (describe(), elev.shape,
-                                                  nr, nc))
-        return
-    rows = (r0 + np.arange(nr, dtype=np.int64)) * NCOLS + 1
-    cols = c0 + np.arange(nc, dtype=np.int64)
-    expected = rows[:, None] + cols[None, :]
-    wrong = elev != expected
-    if wrong.any():
-        i, j = (int(v[0]) for v in np.nonzero(wrong))
-        val = elev[i, j]
-        if val == 0:
-            sig, txt = "elevation/unfilled-pixel", "never filled (0)"
-        else:
-            sig = "elevation/wrong-pixel"
-            try:
-                gr, gc = divmod(int(val) - 1, NCOLS)
-                txt = "the value of global pixel (row %d, col %d)" % (gr, gc)
-            except (ValueError, OverflowError):
-                txt = repr(val)
-        ctx.fail(sig, "%s -> elev[%d, %d] (lat %r, lon %r = global row %d, "
-                 "col %d) is %s; %d of %d entries wrong; tiles requested %r"
-                 % (describe(), i, j, float(lats[i]), float(lons[j]),
-                    r0 + i, c0 + j, txt, int(wrong.sum()), wrong.size,
-                    fk.requested))
+    check_elevation(ctx, "elevation", rect, lats, lons, elev, fk.requested)
     if len(set(fk.requested)) > 1:
         ctx.label("mosaic-of-%d-tiles" % len(set(fk.requested)))
 
@@ -644,6 +659,143 @@ def check_tile(case, ctx):
 
 
 # --------------------------------------------------------------------------
+# histories on the results: the client edits what it got back in place
+# --------------------------------------------------------------------------
+SCRAMBLES = ["none", "add360", "colat", "zero", "reverse", "nan"]
+
+
+def scramble(arr, kind):
+    """in-place edits a client may apply to an array it was handed"""
+    if kind == "add360":
+        arr += 360
+    elif kind == "colat":
+        np.subtract(90, arr, out=arr)
+    elif kind == "zero":
+        arr[...] = 0
+    elif kind == "reverse":
+        arr[...] = arr[::-1].copy()
+    elif kind == "nan":
+        arr.fill(np.nan)
+
+
+def tile_rect(k):
+    name, lat_min, lon_min, lat_max, lon_max = TILES[k]
+    return Rect({"lat_min": lat_min, "lat_max": lat_max,
+                 "lon_min": lon_min, "lon_max": lon_max})
+
+
+def check_results(case, ctx):
+    """Every request of a sequence satisfies the property although the client
+    has overwritten the arrays returned by the earlier requests."""
+    from typhon.topography import SRTM30
+    held = []       # (step, role, array, copy of its content)
+    scrambled_before = False
+    try:
+        with fake_tiles(SRTM30) as fk:
+            for n, step in enumerate(case["steps"]):
+                call = step["call"]
+                ctx.label("call-" + call, "relation-" + step["relation"])
+                prefix = "history/" + call
+                if call == "get_grids":
+                    rect = tile_rect(step["tile"])
+                    lats, lons = SRTM30.get_grids(TILES[step["tile"]][0])
+                    ok = check_grids(ctx, prefix, rect, lats, lons) is not None
+                    arrays = [("lat", lats), ("lon", lons)]
+                elif call == "native_grids":
+                    rect = Rect(step["rect"])
+                    lats, lons = SRTM30.get_native_grids(*rect.args())
+                    ok = check_grids(ctx, prefix, rect, lats, lons) is not None
+                    arrays = [("lat", lats), ("lon", lons)]
+                else:
+                    rect = Rect(step["rect"])
+                    del fk.requested[:]
+                    lats, lons, elev = SRTM30.elevation(*rect.args())
+                    ok = check_elevation(ctx, prefix, rect, lats, lons, elev,
+                                         fk.requested)
+                    arrays = [("lat", lats), ("lon", lons), ("elev", elev)]
+                if ok and scrambled_before and n > 0:
+                    ctx.nontrivial = True
+                # results of different calls must be independent objects
+                for role, arr in arrays:
+                    if not isinstance(arr, np.ndarray):
+                        continue
+                    for m, role2, other, _ in held:
+                        if np.shares_memory(arr, other) and (
+                                arr.flags.writeable or other.flags.writeable):
+                            ctx.fail("history/results-share-memory",
+                                     "%s of step %d (%s) shares memory with "
+                                     "the writable %s returned by step %d: %r"
+                                     % (role, n, call, role2, m,
+                                        case["steps"][:n + 1]))
+                # the client edits its results in place
+                for (role, arr), kind in zip(arrays, step["scramble"]):
+                    if not isinstance(arr, np.ndarray):
+                        continue
+                    held.append((n, role, arr, arr.copy()))
+                    if kind == "none":
+                        continue
+                    if not arr.flags.writeable:
+                        ctx.label("result-read-only")
+                        continue
+                    scramble(arr, kind)
+                    scrambled_before = True
+                    ctx.label("edit-" + kind)
+    finally:
+        # were a result a view of state inside typhon, this puts it back
+        for _, _, arr, saved in reversed(held):
+            if arr.flags.writeable:
+                arr[...] = saved
+
+
+@st.composite
+def result_cases(draw):
+    def pack(r):
+        return {"lat_min": r[0], "lat_max": r[1],
+                "lon_min": r[2], "lon_max": r[3]}
+
+    def shifted(r, di, dj):
+        la0, la1 = r[0] + di / 120, r[1] + di / 120
+        lo0, lo1 = r[2] + dj / 120, r[3] + dj / 120
+        if la0 < -60 or la1 > 90:
+            la0, la1 = r[0], r[1]
+        if lo0 < -180 or lo1 > 180:
+            lo0, lo1 = r[2], r[3]
+        return [la0, la1, lo0, lo1]
+
+    def tile_of(r):
+        row = min(max(int((90 - r[1]) * 120), 0), NROWS - 1)
+        col = min(max(int((r[2] + 180) * 120), 0), NCOLS - 1)
+        return (row // TILE_H) * 9 + col // TILE_W
+
+    rects = rect_cases().map(lambda c: [c["lat_min"], c["lat_max"],
+                                        c["lon_min"], c["lon_max"]])
+    base = draw(rects)
+    n = draw(st.integers(2, 4))
+    steps = []
+    for i in range(n):
+        relation = "first" if i == 0 else draw(st.sampled_from(
+            ["same", "same", "shift", "shift", "other"]))
+        if relation in ("first", "same"):
+            r = base
+        elif relation == "shift":
+            r = shifted(base, draw(st.integers(-3, 3)),
+                        draw(st.integers(-3, 3)))
+        else:
+            r = draw(rects)
+        call = draw(st.sampled_from(["elevation", "native_grids",
+                                     "native_grids", "get_grids"]))
+        kinds = st.sampled_from(SCRAMBLES)
+        step = {"call": call, "relation": relation,
+                "scramble": [draw(kinds), draw(kinds), draw(kinds)]}
+        if call == "get_grids":
+            step["tile"] = tile_of(r)
+        else:
+            step["rect"] = pack(r)
+        steps.append(step)
+    return {"steps": steps}
+
+
+# --------------------------------------------------------------------------
 # cache histories
 # --------------------------------------------------------------------------
 def markers(k):
@@ -670,6 +822,57 @@ def global_markers():
     return out
 
 
+class InjectedFault(ConnectionResetError):
+    """the harness cut a transfer"""
+
+
+_ARCHIVES = {}
+
+
+def tile_archive(k):
+    """zip archive as served for tile k: NAME.DEM (full size, marker pixels)
+    and a small header file; a pure function of k, built once per process"""
+    if k not in _ARCHIVES:
+        name = TILES[k][0].upper()
+        raw = bytearray(TILE_H * TILE_W * 2)
+        for r, c, v in markers(k):
+            struct.pack_into(">h", raw, (r * TILE_W + c) * 2, v)
+        buf = io.BytesIO()
+        with zipfile.ZipFile(buf, "w", zipfile.ZIP_DEFLATED,
+                             compresslevel=1) as zf:
+            zf.writestr(name + ".HDR", "BYTEORDER M\nNROWS 6000\nNCOLS 4800\n")
+            zf.writestr(name + ".DEM", bytes(raw))
+        _ARCHIVES[k] = buf.getvalue()
+    return _ARCHIVES[k]
+
+
+class FakeResponse:
+    """what urlopen returns: delivers `data`, or breaks off after `cut` bytes"""
+
+    def __init__(self, data, cut=None):
+        self.data, self.cut, self.pos = data, cut, 0
+
+    def read(self, size=-1):
+        end = len(self.data) if self.cut is None else self.cut
+        if self.cut is not None and self.pos >= end:
+            raise InjectedFault("connection reset by peer after %d bytes"
+                                % self.pos)
+        if size is None or size < 0:
+            size = end - self.pos
+        chunk = self.data[self.pos:min(self.pos + size, end)]
+        self.pos += len(chunk)
+        return chunk
+
+    def close(self):
+        pass
+
+    def __enter__(self):
+        return self
+
+    def __exit__(self, *exc):
+        return False
+
+
 def check_cache(case, ctx):
     import typhon.topography as topo
     from typhon.topography import SRTM30
@@ -680,7 +883,25 @@ def check_cache(case, ctx):
     old_env = {k: os.environ.get(k) for k in env_keys}
     old_path = topo._data_path
     orig_download = SRTM30.__dict__["download_tile"]
+    orig_urlopen = urllib.request.urlopen
     downloads = []
+    net = case.get("net")          # None: download_tile replaced by a counter
+    faults = {int(k): int(v) for k, v in net["faults"]} if net else {}
+    broken = []                    # names whose transfer was cut
+
+    def urlopen(url, *args, **kwargs):
+        """the network: serves the archive of the tile named in the URL"""
+        url = getattr(url, "full_url", url)
+        hit = [i for i, t in enumerate(TILES) if t[0] in str(url).lower()]
+        if not hit:
+            raise urllib.error.URLError("no such tile: %r" % (url,))
+        n = len(downloads)
+        downloads.append(TILES[hit[0]][0])
+        data = tile_archive(hit[0])
+        if n in faults:
+            broken.append(TILES[hit[0]][0])
+            return FakeResponse(data, len(data) * faults[n] // 1000)
+        return FakeResponse(data)
 
     def download_tile(name):
         downloads.append(name)
@@ -708,7 +929,11 @@ def check_cache(case, ctx):
                   "mode %s: _get_data_path() = %r" % (mode, cache_dir))
         if not inside:
             return
-        SRTM30.download_tile = staticmethod(download_tile)
+        if net:
+            urllib.request.urlopen = urlopen
+            ctx.label("real-download_tile")
+        else:
+            SRTM30.download_tile = staticmethod(download_tile)
         cached = set()
         for k in case["warm"]:
             write_tile_file(os.path.join(cache_dir,
@@ -716,7 +941,8 @@ def check_cache(case, ctx):
             cached.add(k)
         ctx.label("warm" if cached else "cold")
         gm = None
-        seen_hit = seen_miss = False
+        seen_hit = seen_miss = recovered = False
+        retry_pending = set()
         for step, op in enumerate(case["ops"]):
             before = len(downloads)
             if op["op"] == "evict":
@@ -725,25 +951,36 @@ def check_cache(case, ctx):
                 if os.path.exists(path):
                     os.remove(path)
                     ctx.label("evict-cached")
+                if op.get("archive"):
+                    for fn in os.listdir(cache_dir):
+                        if fn.lower() == TILES[op["tile"]][0] + ".dem.zip":
+                            os.remove(os.path.join(cache_dir, fn))
+                            ctx.label("evict-archive")
                 cached.discard(op["tile"])
                 continue
+            n_broken = len(broken)
+            failed = False
             if op["op"] == "get":
                 k = op["tile"]
                 name = TILES[k][0]
-                arr = SRTM30.get_tile(name)
                 need = [] if k in cached else [name]
-                may_idx = [k]
-                arr = np.asarray(arr)
-                ok = arr.shape == (TILE_H, TILE_W) and all(
-                    int(arr[r, c]) == v for r, c, v in markers(k)) \
-                    and int(np.count_nonzero(arr)) == 3
-                ctx.check(ok, "cache/get_tile-wrong-content", lambda: (
-                    "step %d get_tile(%r): shape %r, marker pixels %r, "
-                    "expected %r" % (step, name, arr.shape,
-                                     [int(arr[r, c]) for r, c, _ in markers(k)]
-                                     if arr.shape == (TILE_H, TILE_W) else None,
-                                     markers(k))))
-                needed_idx = [k]
+                may_idx = needed_idx = [k]
+                try:
+                    arr = SRTM30.get_tile(name)
+                except InjectedFault:
+                    failed = True
+                if not failed:
+                    arr = np.asarray(arr)
+                    ok = arr.shape == (TILE_H, TILE_W) and all(
+                        int(arr[r, c]) == v for r, c, v in markers(k)) \
+                        and int(np.count_nonzero(arr)) == 3
+                    ctx.check(ok, "cache/get_tile-wrong-content", lambda: (
+                        "step %d get_tile(%r): shape %r, marker pixels %r, "
+                        "expected %r" % (
+                            step, name, arr.shape,
+                            [int(arr[r, c]) for r, c, _ in markers(k)]
+                            if arr.shape == (TILE_H, TILE_W) else None,
+                            markers(k))))
             else:   # elevation around a marker pixel
                 k = op["tile"]
                 r0t, c0t = tile_origin(TILES[k][0])
@@ -768,45 +1005,78 @@ def check_cache(case, ctx):
                                   for c in (max(ca - 1, 0),
                                             min(cb + 1, NCOLS - 1))})
                 ctx.label("elevation-%d-tiles" % len(needed_idx))
-                lats, lons, elev = SRTM30.elevation(lat_min, lon_min,
-                                                    lat_max, lon_max)
-                rect = Rect({"lat_min": lat_min, "lat_max": lat_max,
-                             "lon_min": lon_min, "lon_max": lon_max})
-                blk = check_grids(ctx, "elevation", rect, lats, lons)
-                if blk is not None:
-                    (r0, nr), (c0, nc) = blk
-                    if gm is None:
-                        gm = global_markers()
-                    exp = np.zeros((nr, nc))
-                    for i in range(nr):
-                        for j in range(nc):
-                            exp[i, j] = gm.get((r0 + i, c0 + j), 0)
-                    elev = np.asarray(elev)
-                    ctx.check(elev.shape == exp.shape
-                              and bool(np.all(elev == exp)),
-                              "cache/elevation-differs-from-files", lambda: (
-                                  "step %d elevation(%r, %r, %r, %r): got %r, "
-                                  "the cached files hold %r" % (
-                                      step, lat_min, lon_min, lat_max, lon_max,
-                                      elev.tolist(), exp.tolist())))
+                try:
+                    lats, lons, elev = SRTM30.elevation(lat_min, lon_min,
+                                                        lat_max, lon_max)
+                except InjectedFault:
+                    failed = True
+                if not failed:
+                    rect = Rect({"lat_min": lat_min, "lat_max": lat_max,
+                                 "lon_min": lon_min, "lon_max": lon_max})
+                    blk = check_grids(ctx, "elevation", rect, lats, lons)
+                    if blk is not None:
+                        (r0, nr), (c0, nc) = blk
+                        if gm is None:
+                            gm = global_markers()
+                        exp = np.zeros((nr, nc))
+                        for i in range(nr):
+                            for j in range(nc):
+                                exp[i, j] = gm.get((r0 + i, c0 + j), 0)
+                        elev = np.asarray(elev)
+                        ctx.check(
+                            elev.shape == exp.shape
+                            and bool(np.all(elev == exp)),
+                            "cache/elevation-differs-from-files", lambda: (
+                                "step %d elevation(%r, %r, %r, %r): got %r, "
+                                "the cached files hold %r" % (
+                                    step, lat_min, lon_min, lat_max, lon_max,
+                                    elev.tolist(), exp.tolist())))
             new = downloads[before:]
-            if need:
-                seen_miss = True
-            if len(need) < len(needed_idx):
-                seen_hit = True
+            cut = broken[n_broken:]
             cached_names = sorted(TILES[i][0] for i in cached)
             again = [n for n in new if n in cached_names]
             ctx.check(not again, "cache/download-although-cached", lambda: (
                 "step %d %r: downloaded %r while the cache held %r"
                 % (step, op, new, cached_names)))
             allowed = [TILES[i][0] for i in may_idx]
-            ctx.check(len(new) == len(set(new))
-                      and set(need) <= set(new) <= set(allowed),
-                      "cache/wrong-downloads", lambda: (
-                          "step %d %r: downloaded %r, expected %r (cache "
-                          "held %r)" % (step, op, new, need, cached_names)))
+            if cut:
+                # The property does not say how a network failure surfaces;
+                # whatever was transferred completely counts as cached, the
+                # tile of the broken transfer does not (unless typhon fetched
+                # it again by itself and the request succeeded).
+                ctx.label("transfer-broke-off",
+                          "broke-off-raised" if failed else "broke-off-retried")
+                ctx.check(set(new) <= set(allowed), "cache/wrong-downloads",
+                          lambda: "step %d %r: transfers %r" % (step, op, new))
+                done = set(new) - set(cut)
+                if not failed:
+                    done |= {TILES[i][0] for i in needed_idx}
+                else:
+                    retry_pending.update(cut)
+                cached.update(i for i, t in enumerate(TILES) if t[0] in done)
+                continue
+            if need:
+                seen_miss = True
+            if len(need) < len(needed_idx):
+                seen_hit = True
+            if net:
+                # an intact archive left in the directory may be used again
+                # instead of a transfer; a transfer is never required here
+                good = len(new) == len(set(new)) and set(new) <= set(allowed)
+                if set(need) - set(new):
+                    ctx.label("served-without-transfer")
+            else:
+                good = len(new) == len(set(new)) \
+                    and set(need) <= set(new) <= set(allowed)
+            ctx.check(good, "cache/wrong-downloads", lambda: (
+                "step %d %r: downloaded %r, expected %r (cache "
+                "held %r)" % (step, op, new, need, cached_names)))
             if set(new) - set(need):
                 ctx.label("neighbour-tile-downloaded-without-need")
+            if retry_pending & {TILES[i][0] for i in needed_idx}:
+                retry_pending -= {TILES[i][0] for i in needed_idx}
+                recovered = True
+                ctx.label("request-after-broken-transfer-succeeded")
             cached.update(needed_idx)
             cached.update(i for i, t in enumerate(TILES) if t[0] in new)
             for i in needed_idx:
@@ -814,13 +1084,14 @@ def check_cache(case, ctx):
                     cache_dir, TILES[i][0].upper() + ".DEM")),
                     "cache/file-missing-after-request",
                     "step %d: %s" % (step, TILES[i][0]))
-        ctx.nontrivial = seen_hit and seen_miss
+        ctx.nontrivial = recovered if net else (seen_hit and seen_miss)
         if seen_hit:
             ctx.label("request-cached")
         if seen_miss:
             ctx.label("request-missing")
     finally:
         setattr(SRTM30, "download_tile", orig_download)
+        urllib.request.urlopen = orig_urlopen
         topo._data_path = old_path
         for k, v in old_env.items():
             if v is None:
@@ -849,6 +1120,38 @@ def cache_cases(draw):
     return {"mode": mode, "warm": sorted(warm), "ops": ops}
 
 
+@st.composite
+def download_cases(draw):
+    """the real download_tile against a harness network with broken transfers"""
+    mode = draw(st.sampled_from(["attr", "attr", "env-typhon", "env-xdg"]))
+    pool = draw(st.lists(st.integers(0, 26), min_size=1, max_size=2,
+                         unique=True))
+    tile = st.sampled_from(pool)
+    warm = draw(st.lists(tile, max_size=draw(st.sampled_from([0, 0, 0, 1])),
+                         unique=True))
+    op = st.one_of(
+        st.fixed_dictionaries({"op": st.just("get"), "tile": tile}),
+        st.fixed_dictionaries({"op": st.just("get"), "tile": tile}),
+        st.fixed_dictionaries({"op": st.just("get"), "tile": tile}),
+        st.fixed_dictionaries({"op": st.just("evict"), "tile": tile,
+                               "archive": st.booleans()}),
+        st.fixed_dictionaries({
+            "op": st.just("elevation"), "tile": tile,
+            "marker": st.integers(0, 2),
+            "ext": st.lists(st.integers(0, 2), min_size=4, max_size=4)}))
+    # a request of a cold tile first and the same tile again at the end, so
+    # that the broken transfer 0 is usually followed by a retry
+    first = draw(op.filter(lambda o: o["op"] != "evict"))
+    ops = [first] + draw(st.lists(op, min_size=0, max_size=4)) \
+        + [{"op": "get", "tile": first["tile"]}]
+    cut = st.one_of(st.sampled_from([0, 1, 500, 999]), st.integers(0, 999))
+    faults = draw(st.dictionaries(st.integers(1, 3), cut, max_size=1))
+    if draw(st.integers(0, 5)) > 0:
+        faults[0] = draw(cut)
+    return {"mode": mode, "warm": sorted(warm), "ops": ops,
+            "net": {"faults": sorted([k, v] for k, v in faults.items())}}
+
+
 def suites(tier):
     return [
         Suite("rectangles", check_rect, strategy=rect_cases(),
@@ -858,4 +1161,8 @@ def suites(tier):
               exhaustive=True),
         Suite("cache-histories", check_cache, strategy=cache_cases(),
               examples={"quick": 20, "thorough": 300}),
+        Suite("result-histories", check_results, strategy=result_cases(),
+              examples={"quick": 40, "thorough": 800}),
+        Suite("download-faults", check_cache, strategy=download_cases(),
+              examples={"quick": 10, "thorough": 120}),
     ]
